@@ -37,7 +37,7 @@ def core(p):
             if op == "Lt" and r in ("lit:0", "lit:0.0"):
                 c[("sign-test",)] += v
             elif op in ("Ne", "Eq") and l.startswith("field:") and r.startswith("field:"):
-                c[("exclude-by-tag", op)] += v
+                c[("exclude-by-tag",)] += v
             elif op in ("Ne", "Eq") and l == "index" and r == "index":
                 c[("exclude-by-index",)] += v
             elif op in ("Eq", "Ne") and r in ("lit:0",) and l.startswith("var:u32"):
@@ -133,7 +133,15 @@ def run(ck, F, tier):
                 min_ok = s1 is not None and not e1.loops and not e1.guards and "min_by" in repr(s1) and "proj1" in repr(s1) and "var_messages" in repr(s1)
                 lp = e2.loops
                 rest_ok = s2 is not None and len(lp) == 1 and lp[0][0] == "iter" and not e2.guards
-                if rest_ok:
+                if s2 is not None and len(lp) == 1 and lp[0][0] == "enumerate" and lp[0][2] == ("elems", VM):
+                    # explicit form: for (j, msg) in var_messages.iter().enumerate() { if j == argmin { continue } send(..) }
+                    from ..symx import canon_cond
+                    jv = var(lp[0][1])
+                    gs = [canon_cond(g, p) for g, p in e2.guards]
+                    excl = len(gs) == 1 and gs[0][1] is False and single_atom(gs[0][0]) is not None and atom_fn(single_atom(gs[0][0])) == "eq" \
+                        and jv in atom_args(single_atom(gs[0][0])) and any("proj0" in repr(x) and "min_by" in repr(x) for x in atom_args(single_atom(gs[0][0])))
+                    rest_ok = excl and s2 == app("elem", VM, var("msg")) or (excl and "elem(var_messages" in repr(s2))
+                elif rest_ok:
                     d = lp[0][2]
                     rest_ok = d[0] == "filter_map" and d[1] == ("enumerate", ("elems", VM))
                     clo = d[2]
@@ -180,8 +188,10 @@ def run(ck, F, tier):
                 okl = okl and whole and not partial and not e.guards
         ck.inst("K1", ty + ":layered", okl, bl.span, "every message value is assigned once and vars[msg.dest] updated once, in one whole pass over check_messages (%d / %d store sites)" % (len(msg_st), len(var_st)))
         # profiles (hooks excluded)
-        prof[(ty, "f")] = profile(b.value, hooks_of(b))
-        prof[(ty, "l")] = profile(bl.value, hooks_of(bl))
+        # (private helper functions of the module are expanded; trait hooks and the shared lookup/clip primitives are not)
+        helper = lambda cp: cp.startswith(ARI) and "DecoderArithmetic" not in cp
+        prof[(ty, "f")] = profile(b.value, hooks_of(b), F, helper)
+        prof[(ty, "l")] = profile(bl.value, hooks_of(bl), F, helper)
 
         # ---- K2 -----------------------------------------------------------------------------------------
         for tag, body, fld in (("flooding", b, "source"), ("layered", bl, "dest")):
@@ -207,16 +217,23 @@ def run(ck, F, tier):
                        and strip(n["t"]).get("k") in ("bin", "block") and "BitXor" in repr([x.get("op") for x in walk(n["t"])]) and "e" in n]
                 ck.inst("K2", "%s:%s" % (ty, tag), own and len(sgn) == 1, body.span, "per destination: magnitude phi(sum - own phi) (%s); own sign removed by sign ^ 1 when x < 0 (%d site)" % (own, len(sgn)))
             else:
-                def usize_local(x):
-                    x = strip(x)
-                    return x.get("k") == "path" and x.get("res") == "local" and x.get("ty", "").lstrip("&") == "usize"
-                guards = [n for n in walk(body.value) if n.get("k") == "if" and strip(n["c"]).get("k") == "bin" and strip(n["c"])["op"] == "Ne"
-                          and usize_local(strip(n["c"])["l"]) and usize_local(strip(n["c"])["r"]) and strip(strip(n["c"])["l"])["name"] != strip(strip(n["c"])["r"])["name"]]
+                # the running box-plus `delta` is updated exactly for the elements other than the least reliable one: every assignment
+                # to a loop-carried local inside the pass over the messages that combines magnitudes (min) is guarded by index != argmin
+                from ..symx import canon_cond
+                tr_ = t if tag == "flooding" else tl
+                folds = []
+                for nm, val, loops, guards in tr_.assign_sites:
+                    if loops and "min(" in repr(val) and "@loop" in repr(val):
+                        idxs = [var(l[1]) for l in loops if l[0] == "enumerate"] + [var(l[1]) for l in loops if l[0] == "range"]
+                        gs = [canon_cond(g, p) for g, p in guards]
+                        ex = [g for g, p in gs if p is False and single_atom(g) is not None and atom_fn(single_atom(g)) == "eq"
+                              and any(i in atom_args(single_atom(g)) for i in idxs) and "min_by" in repr(g)]
+                        folds.append(bool(ex))
                 amin = [n for n in walk(body.value) if n.get("k") == "mcall" and n["m"] in ("min_by", "min_by_key")]
                 abs_ok = len(amin) == 1 and any(x.get("k") == "mcall" and x["m"] == "abs" for x in walk(amin[0]["args"][0]))
-                # flooding also uses `j != argmin` in the filter_map that enumerates the remaining destinations
-                want_g = 2 if tag == "flooding" else 1
-                ck.inst("K2", "%s:%s" % (ty, tag), len(guards) == want_g and abs_ok, body.span, "fold over j != argmin (%d guards, expected %d), argmin by |value| (%s)" % (len(guards), want_g, abs_ok))
+                ck.inst("K2", "%s:%s" % (ty, tag), bool(folds) and all(folds) and abs_ok, body.span,
+                        "the box-plus fold skips exactly the least reliable element (%d fold update(s), all under index != argmin: %s), argmin by |value| (%s)" % (
+                            len(folds), bool(folds) and all(folds), abs_ok))
 
     # ---- K6 -------------------------------------------------------------------------------------------------
     from .c10 import scratch_discipline
@@ -237,42 +254,47 @@ def run(ck, F, tier):
     ck.floor("K6", "scratch uses in check rules", n6, 6)
 
     # ---- K3 -------------------------------------------------------------------------------------------------
+    # Sibling cross-check on the *presence* of the sign / magnitude / exclusion operators: how often an operator is written down
+    # changes with hoisting or duplicating a sub-expression and says nothing about behaviour, a missing or foreign operator does.
+    def kinds(c):
+        return set(c)
+
+    def fmts(x):
+        return ", ".join(":".join(str(y) for y in k) for k in sorted(x, key=repr))
     for ty in types:
-        a, b_ = core(prof[(ty, "f")]), core(prof[(ty, "l")])
-        # A-Min*: flooding has `j != argmin` twice (fold + filter_map), layered `j != argmin` + `j == argmin`: same total by construction of core()
-        da, db = diff(a, b_)
+        a, b_ = kinds(core(prof[(ty, "f")])), kinds(core(prof[(ty, "l")]))
+        da, db = a - b_, b_ - a
         ck.inst("K3", "flooding~layered:" + ty, not da and not db, F.body("<%s%s as %s>::send_check_messages" % (ARI, ty, TRAIT)).span,
-                "sign/magnitude/exclusion core identical" if not da and not db else "siblings disagree - only in send_check_messages: [%s] ; only in update_check_messages_and_vars: [%s]" % (fmt(da), fmt(db)))
-    # reasons: the float rules compute ln_1p(exp(-|..|)) (one negation each) where the 8-bit rules look the value up; A-Min* 8-bit clamps
-    # at 0 and uses saturating_add for x (+) y; the float argmin compares |a|,|b| through partial_cmp (two abs), the 8-bit one uses a key (one abs)
-    PAIRS = {("Minstarapproxf64", "Minstarapproxi8"): (Counter({("call", "exp"): 1, ("call", "ln_1p"): 1, ("neg",): 1}), Counter({("call", "lookup"): 1})),
-             ("Aminstarf64", "Aminstari8"): (Counter({("call", "exp"): 4, ("call", "ln_1p"): 4, ("call", "partial_cmp"): 1, ("call", "min_by"): 1, ("neg",): 4, ("call", "abs"): 1}),
-                                               Counter({("call", "lookup"): 4, ("call", "max"): 2, ("call", "saturating_add"): 2, ("call", "min_by_key"): 1}))}
+                "sign/magnitude/exclusion core uses the same operators" if not da and not db else "siblings disagree - only in send_check_messages: [%s] ; only in update_check_messages_and_vars: [%s]" % (fmts(da), fmts(db)))
+    # reasons: the float rules compute ln_1p(exp(-|..|)) (negation) where the 8-bit rules look the value up; A-Min* 8-bit clamps
+    # at 0 (max) and uses saturating_add for x (+) y; the float argmin compares |a|,|b| through partial_cmp/min_by, the 8-bit one uses a key
+    PAIRS = {("Minstarapproxf64", "Minstarapproxi8"): ({("call", "exp"), ("call", "ln_1p"), ("neg",)}, {("call", "lookup")}),
+             ("Aminstarf64", "Aminstari8"): ({("call", "exp"), ("call", "ln_1p"), ("call", "partial_cmp"), ("call", "min_by")},
+                                               {("call", "lookup"), ("call", "max"), ("call", "saturating_add"), ("call", "min_by_key")})}
     for (fty, ity), (only_f, only_i) in PAIRS.items():
         for side in ("f", "l"):
-            a, b_ = core(prof[(fty, side)]), core(prof[(ity, side)])
-            da, db = diff(a, b_)
-            # unwrap of partial_cmp is not in CORE_CALLS; literals differ by float/int typing only
-            da = Counter({k: v for k, v in da.items() if k[0] != "lit"})
-            db = Counter({k: v for k, v in db.items() if k[0] != "lit"})
-            ck.inst("K3", "float~8bit:%s~%s:%s" % (fty, ity, "flooding" if side == "f" else "layered"), da == only_f and db == only_i,
+            a, b_ = kinds(core(prof[(fty, side)])), kinds(core(prof[(ity, side)]))
+            da = {k for k in a - b_ if k[0] != "lit"}
+            db = {k for k in b_ - a if k[0] != "lit"}
+            # `neg` may or may not survive in the 8-bit rule (sign application); it is compared by the flooding~layered check of each
+            ck.inst("K3", "float~8bit:%s~%s:%s" % (fty, ity, "flooding" if side == "f" else "layered"), da - {("neg",)} == only_f - {("neg",)} and db == only_i,
                     F.body("<%s%s as %s>::send_check_messages" % (ARI, ity, TRAIT)).span,
-                    "8-bit differs from float exactly by: -[%s] +[%s] ; expected -[%s] +[%s]" % (fmt(da), fmt(db), fmt(only_f), fmt(only_i)))
+                    "8-bit differs from float exactly by: -[%s] +[%s] ; expected -[%s] +[%s]" % (fmts(da), fmts(db), fmts(only_f), fmts(only_i)))
     for a_, b__ in (("Phif64", "Phif32"), ("Tanhf64", "Tanhf32"), ("Minstarapproxf64", "Minstarapproxf32"), ("Aminstarf64", "Aminstarf32")):
         for side in ("f", "l"):
-            x, y = prof[(a_, side)], prof[(b__, side)]
-            dx = Counter({k: v for k, v in (x - y).items() if k[0] != "lit" and "var:f" not in repr(k)})
-            dy = Counter({k: v for k, v in (y - x).items() if k[0] != "lit" and "var:f" not in repr(k)})
+            x, y = kinds(core(prof[(a_, side)])), kinds(core(prof[(b__, side)]))
+            dx = {k for k in x - y if k[0] != "lit"}
+            dy = {k for k in y - x if k[0] != "lit"}
             ck.inst("K3", "f64~f32:%s:%s" % (a_, side), not dx and not dy, F.body("<%s%s as %s>::send_check_messages" % (ARI, a_, TRAIT)).span,
                     "f64 and f32 instantiations have the same operators (only literals / operand types differ)")
     for fam_prefix in ("Minstarapproxi8", "Aminstari8"):
         vs = [t for t in types if t.startswith(fam_prefix)]
         ck.floor("K3", fam_prefix + " variants", len(vs), 8)
         for side in ("f", "l"):
-            base = prof[(vs[0], side)]
-            same = all(prof[(v, side)] == base for v in vs)
+            base = kinds(core(prof[(vs[0], side)]))
+            same = all(kinds(core(prof[(v, side)])) == base for v in vs)
             ck.inst("K3", "variants:%s:%s" % (fam_prefix, side), same, F.body("<%s%s as %s>::send_check_messages" % (ARI, vs[0], TRAIT)).span,
-                    "the %d variants are operator-identical outside their hook closures" % len(vs))
+                    "the %d variants use the same operators outside their hook closures" % len(vs))
 
     # ---- K4 -------------------------------------------------------------------------------------------------
     eight = [t for t in types if "i8" in t]
@@ -293,9 +315,9 @@ def run(ck, F, tier):
         for p, nm in zip(lb.params, ("table", "x")):
             es.bind(p, var(nm), env)
         lv = es.eval(lb.value, env)
-        want_l = app("std::option::Option::<T>::unwrap_or", app("std::option::Option::<&T>::copied", app("core::slice::<impl [T]>::get", var("table"), app("cast_usize", var("x")) if False else var("x"))), num(0))
+        want_l = app("std::option::Option::<T>::unwrap_or", app("core::slice::<impl [T]>::get", var("table"), var("x")), num(0))
         nonneg = len(es.asserts) == 1 and any(x.get("k") == "bin" and x["op"] == "Ge" and lit_value(x["r"]) == 0 for x in walk(es.asserts[0]))
-        ck.inst("K4", ty + ":lookup", lv == want_l and nonneg, lb.span, "lookup(table, x) = table.get(x).copied().unwrap_or(0) with assert!(x >= 0): %s / %s" % (lv == want_l, nonneg))
+        ck.inst("K4", ty + ":lookup", lv == want_l and nonneg, lb.span, "lookup(table, x) = the table entry at x, or 0 past its end (get + unwrap_or / match), with assert!(x >= 0): %s / %s" % (lv == want_l, nonneg))
         nb = F.body(ARI + ty + "::new")
         cl = [c for c in walk(nb.value) if c.get("k") == "closure"]
         okt = False
